@@ -7,7 +7,8 @@ restricts the rule's findings to the source files the property is anchored in.
 
 def infile(*suffixes):
     def f(finding):
-        return bool(finding.file) and finding.file.endswith(tuple(suffixes))
+        fc = getattr(finding, "file_canon", None)      # the file's name before a module/file rename (see engines/rename.py)
+        return (bool(finding.file) and finding.file.endswith(tuple(suffixes))) or (bool(fc) and fc.endswith(tuple(suffixes)))
     f.__doc__ = "findings in " + ", ".join(suffixes)
     return f
 
